@@ -551,6 +551,21 @@ RCP<const Basic> load_basic(Archive &ar, RCP<const Complex> &)
     ar(num, den);
     return Complex::from_two_nums(*num, *den);
 }
+template <class Archive>
+RCP<const Basic> load_basic(Archive &ar, RCP<const ComplexDouble> &)
+{
+    RCP<const Number> re, im;
+    ar(re, im);
+    if (is_a<RealDouble>(*re) and is_a<RealDouble>(*im)) {
+        // Build the value from its two parts directly: re + I*im computed in
+        // floating point turns (-0.0, y) into (0.0, y) and (x, inf) into
+        // (nan, inf).
+        return complex_double(
+            std::complex<double>(down_cast<const RealDouble &>(*re).i,
+                                 down_cast<const RealDouble &>(*im).i));
+    }
+    return addnum(re, mulnum(I, im));
+}
 template <class Archive, class T>
 RCP<const Basic>
 load_basic(Archive &ar, RCP<const T> &,
